@@ -80,6 +80,9 @@ int main() {
   O(CookieJar_cookies, CookieJar, cookies); S(CookieJar, CookieJar);
   { typedef std::pair<const std::string, CookieJar::HashMapCookies> E1; typedef std::pair<const std::string, Cookie> E2; printf("#define SIZEOF_JarOuterEntry %zu\n#define OFF_JarOuterEntry_second %zu\n#define SIZEOF_JarInnerEntry %zu\n#define OFF_JarInnerEntry_second %zu\n", sizeof(E1), offsetof(E1, second), sizeof(E2), offsetof(E2, second)); }
   O(Message_version_, Message, version_); O(Message_code_, Message, code_);
+  O(Connection_control, Header::Connection, control_); O(Expect_expectation, Header::Expect, expectation_); S(HdrConnection, Header::Connection); S(HdrEncoding, Header::EncodingHeader); S(HdrExpect, Header::Expect); S(HdrContentLength, Header::ContentLength);
+  printf("#define VP_CC_CLOSE %d\n#define VP_CC_KEEPALIVE %d\n#define VP_CC_EXT %d\n#define VP_EXPECT_CONTINUE %d\n#define VP_EXPECT_EXT %d\n", (int)ConnectionControl::Close, (int)ConnectionControl::KeepAlive, (int)ConnectionControl::Ext, (int)Expectation::Continue, (int)Expectation::Ext);
+  printf("#define VP_ENC_VALUES %d,%d,%d,%d,%d,%d\n", (int)Header::Encoding::Gzip, (int)Header::Encoding::Compress, (int)Header::Encoding::Deflate, (int)Header::Encoding::Identity, (int)Header::Encoding::Chunked, (int)Header::Encoding::Unknown);
   printf("#define SIZEOF_WriteDeque %zu\n", sizeof(std::deque<Tcp::Transport::WriteEntry>));
   printf("#define VP_MIME_TYPES ");
 #define TYPE(val, str) printf("\"%s\",", str);
